@@ -150,6 +150,12 @@ class KernelGroup(Group):
             jobs = harness.jobs_from(obls, prefix, timeout_ms=self.timeout_ms)
             for j in jobs:
                 j['subgoals'] = [j['name'].split(':', 1)[1]]
+                if j['kind'] == 'canary':
+                    # vacuity guard: `False` must NOT be provable on at least one path of every class
+                    j['timeout_ms'] = 3000
+                    j['portfolio'] = False
+                    j['cache'] = False
+                    j['want_model'] = False
         else:
             # bounded mode: quantifier-free goals, solved incrementally right here (one solver per path, push/pop
             # per goal).  First pass with opaque spec helpers where the contract offers them (sound weakening);
